@@ -1092,3 +1092,21 @@ Theorem C01_lost_stage_join_started :
     d_tick (f_db st') = d_tick (f_db st) + N.of_nat nticks * p_step P.
 Proof. exact lost_stage_join_started. Qed.
 Print Assumptions C01_lost_stage_join_started.
+
+(* stage (c): the new member reports, the DELETE of the lost member is scheduled. Additional premise: the lost member is
+   overdue at the start of the round (it has been since the ADD was scheduled: its record is not touched and the clock
+   only advances). From StageD the round ends in StageE L s0 f0 x t: every record is stamped, every member but the
+   lost one runs, and a live DELETE for f0 (current fence, FleetMendBProofs.lchange) is pending for the NodeHost of a
+   healthy member (se_live); every other pending request is a leftover or such a DELETE. *)
+Theorem C01_lost_stage_delete :
+  forall (L : N -> N -> Prop) (P : params), (forall s rid, L s rid \/ ~ L s rid) ->
+  forall (s0 f0 x t : N) (st st' : fstate) (plogs : N -> bool) (nticks : nat) (o : outcome),
+  StageD L s0 f0 x t st -> (forall a, plogs a = true) -> N.of_nat nticks * p_step P < p_ttl P ->
+  (forall s, is_Some (f_hist st !! s) -> exists a, spare st a s) -> o <> OCrash ->
+  (forall st4, pre_schedule P plogs nticks st = Some st4 -> fresh_ok st4 (ESchedule o)) ->
+  p_ttl P < d_tick (f_db st) - mem_tick st s0 f0 ->
+  healthy_round P plogs nticks o st = Some st' ->
+  exists b, o = OBatch b /\ StageE L s0 f0 x t st' /\ f_hist st' = f_hist st /\
+    d_tick (f_db st') = d_tick (f_db st) + N.of_nat nticks * p_step P.
+Proof. exact lost_stage_delete. Qed.
+Print Assumptions C01_lost_stage_delete.
